@@ -307,7 +307,7 @@ def run(ctx):
         k["shard"] = 40
         return _evaluate(*a, **k)
     hist.evaluate = sharded
-    _shrink, budget = hist.shrink, [2]
+    _shrink, budget = hist.shrink, [1]
 
     def bounded_shrink(ctx_, driver, case, to_term_, header, case_type, which, step, clause, rounds=3):
         if budget[0] <= 0:            # many distinct failures: report the rest unshrunk
